@@ -7,8 +7,28 @@ from .d_keyedlist import KItem, KOther
 from spec_classes.types import KeyedSet
 
 
+import operator
+import typing
+
+
 def _k0(t):
     return t[0]
+
+
+class AItem:
+    """A plain hashable value object identified by its attribute `k` (key function: operator.attrgetter('k'), which REJECTS bare keys)."""
+
+    def __init__(self, k, p):
+        self.k, self.p = k, p
+
+    def __eq__(self, other):
+        return isinstance(other, AItem) and (self.k, self.p) == (other.k, other.p)
+
+    def __hash__(self):
+        return hash((self.k, self.p))
+
+    def __repr__(self):
+        return f"AItem({self.k!r}, {self.p!r})"
 
 
 FLAVOURS = {
@@ -16,16 +36,18 @@ FLAVOURS = {
     "fn": (_k0, tuple, str),
     "spec": (None, KItem, str),
     "unhash": (_k0, list, str),          # unhashable items with hashable keys
+    "selfu": (None, typing.Union[int, str], str),          # self-keyed items whose ITEM type is wider than the KEY type: 5 is a fine item, not a fine key
+    "attr": (operator.attrgetter("k"), AItem, str),      # key function that raises AttributeError for anything that is not an item
 }
-HASHABLE = {"self", "fn"}
+HASHABLE = {"self", "selfu", "fn", "attr"}
 
 
 def expressible(flavour, item):
     if item["bad"] == "key" and flavour in ("self", "spec"):
         return False
-    if item["bad"] == "itemk" and flavour == "self":
+    if item["bad"] == "itemk" and flavour in ("self", "selfu"):
         return False
-    if flavour == "self" and item["p"] != 0:
+    if flavour in ("self", "selfu") and item["p"] != 0:
         return False
     return True
 
@@ -33,24 +55,30 @@ def expressible(flavour, item):
 def gamma_item(flavour, item):
     bad = item["bad"]
     if bad == "item":
-        return {"self": 5, "fn": "zz", "spec": 5, "unhash": "zz"}[flavour]
+        return {"self": 5, "selfu": 2.5, "fn": "zz", "spec": 5, "unhash": "zz", "attr": KItem(k="zz")}[flavour]
     if bad == "key":
-        return {"fn": (7, 0), "unhash": [7, 0]}[flavour]
+        return {"fn": (7, 0), "unhash": [7, 0], "attr": AItem(7, 0), "selfu": 5}[flavour]
     if bad == "itemk":          # wrong item type, good key
+        if flavour == "attr":
+            return KOther(k=item["k"], p=item["p"])          # has attribute k (a good key) but is not an AItem
         return KOther(k=item["k"], p=item["p"]) if flavour == "spec" else [item["k"], item["p"]] if flavour == "fn" else (item["k"], item["p"])
-    if flavour == "self":
+    if flavour in ("self", "selfu"):
         return item["k"]
     if flavour == "spec":
         return KItem(k=item["k"], p=item["p"])
     if flavour == "unhash":
         return [item["k"], item["p"]]
+    if flavour == "attr":
+        return AItem(item["k"], item["p"])
     return (item["k"], item["p"])
 
 
 def alpha_item(flavour, obj):
-    if flavour == "self" and isinstance(obj, str):
+    if flavour in ("self", "selfu") and isinstance(obj, str):
         return {"k": obj, "p": 0, "bad": "no"}
     if flavour == "spec" and isinstance(obj, KItem):
+        return {"k": obj.k, "p": obj.p, "bad": "no"}
+    if flavour == "attr" and isinstance(obj, AItem) and isinstance(obj.k, str) and isinstance(obj.p, int):
         return {"k": obj.k, "p": obj.p, "bad": "no"}
     if (flavour == "fn" and isinstance(obj, tuple) or flavour == "unhash" and isinstance(obj, list)) and len(obj) == 2 \
             and isinstance(obj[0], str) and isinstance(obj[1], int):
@@ -93,7 +121,7 @@ def action_expressible(flavour, typed, a):
             return False
         if not expressible(flavour, x):
             return False
-    if flavour == "self" and "arg" in a and a["arg"]["kind"] == "key":
+    if flavour in ("self", "selfu") and "arg" in a and a["arg"]["kind"] == "key":
         return False      # a bare key IS an item for self-keyed sets (documented ambiguity): use kind=item only
     return True
 
@@ -198,7 +226,7 @@ def run_random(job):
     flavour, typed, enforce, sd, n_hist, hist_len, nkeys, npay = job
     rnd = random.Random(sd)
     keys = [chr(ord("a") + i) for i in range(nkeys)]
-    pays = [0] if flavour == "self" else list(range(npay))
+    pays = [0] if flavour in ("self", "selfu") else list(range(npay))
     uni = [{"k": k, "p": p, "bad": "no"} for k in keys for p in pays]
     bads = [x for x in ({"k": keys[0], "p": 0, "bad": "item"}, {"k": keys[0], "p": 0, "bad": "key"}, {"k": keys[0], "p": 0, "bad": "itemk"}, {"k": keys[-1], "p": 0, "bad": "itemk"})
             if typed and expressible(flavour, x)]
